@@ -113,7 +113,7 @@ build_one() {
 
 ALL_TARGETS=(
   "gcsim plain" "gcsim asan" "gcsim tsan"
-  "qhist plain"
+  "qhist plain" "qhist tsan"
   "clirun plain"
   "fssim plain"
   "updsim plain"
